@@ -17,6 +17,7 @@ shims).  Directives:
           //@contract            payload spliced between signature and body (requires/ensures)
           //@edit rule=<R> find=<<tokens>> [count=N|all]     payload replaces the matched tokens
           //@edit rule=ghost after=<<tokens>> | before=<<tokens>>   payload inserted (ghost text)
+          //@edit rule=ghost at=body_start      payload inserted right after the function body's opening brace
           //@sig                 payload replaces the signature (rule E7/E12 for trait impls and
                                  parameter types outside Verus' subset); the real signature must
                                  token-equal the text given in `was=<<...>>`
@@ -334,8 +335,17 @@ def apply_ops(unit, fn_text, log):
                 s = s[:pos] + '\n' + payload + s[pos:]
                 if rule != 'ghost':
                     log.append({'unit': unit.id, 'rule': rule, 'what': 'insert %s `%s`' % (key, a[key])})
+            elif a.get('at') == 'body_start':
+                # payload inserted right after the opening brace of the function body: an anchor that
+                # does not depend on what the first statement is (whole-function units only)
+                if not s.lstrip().startswith('{'):
+                    raise ExtractError('%s: at=body_start needs a whole-function unit' % unit.id)
+                pos = s.index('{') + 1
+                s = s[:pos] + '\n' + payload + s[pos:]
+                if rule != 'ghost':
+                    log.append({'unit': unit.id, 'rule': rule, 'what': 'insert at body start'})
             else:
-                raise ExtractError('%s: edit needs find/after/before' % unit.id)
+                raise ExtractError('%s: edit needs find/after/before/at' % unit.id)
         elif kind == 'chain':
             # Method chain -> shim call.  `RECV<anchor>ARGS)<suffix>`  =>  `to(RECV, ARGS)`.
             # RECV is the maximal postfix expression that ends where the anchor starts (a `&` / `*` that
